@@ -120,14 +120,22 @@ func c10RefJumpdest(code []byte, p int) bool {
 	return false
 }
 
-// jumps land only on JUMPDEST bytes outside push data: for every code string and position
+// jumps land only on JUMPDEST bytes outside push data: for every code string and position.
+// The symbolic window (4 bytes, thorough 5) is placed behind 0..9 filler bytes and followed by
+// three JUMPDEST bytes so that push data straddles the 8-byte words of the code bitmap.
 func VerifC10_JumpdestBitmap() {
-	n := 5
+	n := 4
 	if symx.Thorough() {
-		n = 7
+		n = 5
 	}
-	code := symx.BytesRange("code", 1, n)
-	p := symx.Choice("p", n+1)
+	k := symx.Choice("fill", 10)
+	var code []byte
+	for i := 0; i < k; i++ {
+		code = append(code, byte(STOP))
+	}
+	code = append(code, symx.Bytes("code", n)...)
+	code = append(code, byte(JUMPDEST), byte(JUMPDEST), byte(JUMPDEST))
+	p := symx.Choice("p", len(code)+1)
 	c := NewContract(AccountRef(vfAddr), AccountRef(vfAddr), new(big.Int), 0)
 	c.Code = code
 	got := c.validJumpdest(new(uint256.Int).SetUint64(uint64(p)))
